@@ -67,6 +67,18 @@ class C13Defaults(Serializable):
     blob: bytes = b"default"
 
 
+def _wide_class(n):
+    """a message class with n public fields (the field count has its own integer encoding: 1, 2 bytes ...)"""
+    ns = {"__annotations__": {}, "__module__": __name__}
+    for i in range(n):
+        ns["f%03d" % i] = None
+        ns["__annotations__"]["f%03d" % i] = object
+    return type(Serializable)("C13Wide%d" % n, (Serializable,), ns)
+
+
+WIDE_CLASSES = dict((n, _wide_class(n)) for n in (126, 127, 128, 129, 200, 255, 256, 257, 300))
+
+
 INTS = [0, 1, -1, 127, -127, 128, -128, 129, -129, 32767, -32767, 32768, -32768, 32769, -32769,
         2 ** 31 - 1, -(2 ** 31 - 1), 2 ** 31, -2 ** 31, 2 ** 31 + 1, -(2 ** 31 + 1), 2 ** 63 - 1, -2 ** 63, 255, 256, 65535, 65536]
 FLOATS = [0.0, -0.0, 1.5, 3.14, 1e38, 1.401298464324817e-45, float("inf"), float("-inf"), float("nan"), -2.5]
@@ -143,6 +155,14 @@ def gen_values(tier):
         yield [a, b, a], "look-alike"
         yield {"p": b, "q": a}, "look-alike"
         yield C13Three(a=b, b=a, c=[a, b]), "look-alike"
+    # classes with many fields: the field count crosses the 1-byte / 2-byte integer encodings
+    for n, cls in WIDE_CLASSES.items():
+        last = "f%03d" % (n - 1)
+        yield cls(), "wide-class %d fields" % n
+        yield cls(**{"f000": -500, last: "end"}), "wide-class %d fields" % n
+        yield cls(**dict(("f%03d" % i, i - 130) for i in range(n))), "wide-class %d fields" % n
+        yield [cls(**{last: 1}), 7, cls(f000=b"x")], "wide-class %d fields" % n
+        yield C13One(x=cls(**{"f001": [cls()]})), "wide-class %d fields" % n
     yield [], "list0"
     yield (), "tuple0"
     yield set(), "set0"
